@@ -230,6 +230,66 @@ def run(ck: Check) -> None:
                          {"value": proto.enc(v)[:800], "routes_with_other_bytes": bad[:8]}, "signed-bytes:" + (bad[0].split(":")[0] if bad else "missing"))
             break
 
+    # 6c. a function of the value *alone*: not of what the process serialized — or failed to serialize — before.  Requests that fail part-way (a value
+    # outside the JSON universe deep inside, after output has begun: a cycle, a non-JSON kind, an integer beyond the interpreter's digit limit,
+    # nesting beyond the recursion limit, members indexed by strings and numbers at once) are each followed by requests whose bytes are known.
+    def _poisons():
+        cyc = {"a": [1, 2, {"b": "x" * 70}]}
+        cyc["a"][2]["self"] = cyc
+        yield "cycle", cyc
+        cl = [1, "two"]
+        cl.append(cl)
+        yield "cyclic-list", {"k": cl}
+        yield "non-json-inside", {"a": "x" * 100, "b": [1, 2, {1, 2}]}
+        yield "bytes-inside", {"a": ["y" * 50, b"raw"]}
+        yield "huge-int-inside", {"a": 1, "b": [2, 10 ** 5000]}
+        deep = cur = {"top": "t" * 40}
+        for _ in range(100000):
+            nxt = {}
+            cur["d"] = nxt
+            cur = nxt
+        yield "too-deep", deep
+        yield "mixed-indexes", {"a": {"x": 1, 2: 3}, "b": 1}
+        class Boom(Exception):
+            pass
+        class Evil(dict):
+            def items(self):
+                raise Boom("members unavailable")
+        yield "failing-container", {"a": "z" * 30, "b": Evil(q=1)}
+    known = [v for v in wfvals if nontrivial(v)][:6] or wfvals[:6]
+    for label, bad in _poisons():
+        ck.count("history:failed-request:" + label)
+        outcomes = []
+        for route in ("canonserialize", "serialize_and_sign", "write_metadata_to_file"):
+            try:
+                with impl.quiet_stdout():
+                    if route == "canonserialize":
+                        impl.common.canonserialize(bad)
+                    elif route == "serialize_and_sign":
+                        impl.signing.serialize_and_sign(bad, priv)
+                    else:
+                        impl.common.write_metadata_to_file(bad, os.path.join(d, "poison.json"))
+                outcomes.append("returned")
+            except BaseException as e:  # noqa: BLE001 — whatever the failed request does is not judged here, only what follows it
+                if isinstance(e, (KeyboardInterrupt, impl.CallTimeout)):
+                    raise
+                outcomes.append(type(e).__name__)
+            for v in known[:3]:
+                ck.evaluations += 1
+                ck.oracle_checks += 1
+                try:
+                    with impl.quiet_stdout():
+                        got = impl.common.canonserialize(v)
+                        sig = impl.signing.serialize_and_sign(v, priv)
+                except Exception as e:  # noqa: BLE001
+                    got, sig = repr(e), None
+                if got != sers[id(v)] or sig != sk.sign(sers[id(v)]).hex():
+                    ck.violation("canonical bytes of a value depend on what the process was asked to serialize before (a request that failed part-way precedes)",
+                                 {"failed_request": label, "route": route, "value": proto.enc(v)[:500], "bytes_now": (got[:200].decode("latin-1") if isinstance(got, bytes) else got)},
+                                 "history:" + label)
+                    break
+        del bad
+
     # 7. configurations: hash seed, locale, timezone, cwd (fresh processes; digest of a seeded batch must not move)
     confs = [dict(PYTHONHASHSEED="0"), dict(PYTHONHASHSEED="1", LC_ALL="C", TZ="Pacific/Kiritimati"),
              dict(PYTHONHASHSEED="random", LC_ALL="C.UTF-8", PYTHONIOENCODING="ascii", CWD="/")]
